@@ -652,6 +652,103 @@ func TestSameTextOtherTable(t *testing.T) {
 
 // ---------------------------------------------------------------- fixed regressions
 
+// TestContextTable: every composite form of the grammar as the place of an offender. The context with a harmless
+// value in the hole must load; with an offender in the hole it must be rejected, the error pointing into the offender.
+func TestContextTable(t *testing.T) {
+	contexts := []string{
+		"x = a.b[@]", "x = a[@].b", "x = a.b[1][@]", "x = a.`b c`[@]", "x = a.b.c[@]", "x = a[@].b[2].c", "add_key(abc.def[@], 1)", "if a.b[@] { }", "x = [a.b[@]]",
+		"x = .[@]", "x = .[0][@]", "x = m[@][\"k\"]", "x = m[\"k\"][@]", "x = (@)", "x = -@", "x = !@", "x = [@]", "x = [1, [2, @]]", "x = {\"k\": @}", "x = {\"k\": 1, \"j\": [@]}",
+		"x = {\"k\": @, \"k\": 1}", "x = {\"a\": 0, \"k\": [@], \"b\": 2, \"k\": 1}",
+		"x = s[@:]", "x = s[:@]", "x = s[::@]", "x = s[1:2][@:]", "x = \"abc\"[@:]", "x = [1, 2][:@:]", "x = pval(@)", "x = pval(v = @)", "x = pval(pval(@))", "x = 1 + @", "x = @ + 1", "x = @ in [1]", "x = 1 in @",
+		"x = 1 < @", "x = true && @", "x = @ || false",
+		"for i = @; i < 1; i = i + 1 { }", "for ; @; { break }", "for ;; @ { break }", "for i = 0; i < 1; i = @ { }", "for x in @ { }", "for x in [@] { }", "if @ { }", "if true { } elif @ { }",
+		"if true { x = @ } elif true { } elif true { }", "if false { } elif true { x = @ } elif true { }", "if false { } elif false { } elif true { x = @ }", "if false { } else { x = @ }",
+		"if true { if true { x = @ } elif true { } } elif true { }", "for x in [1] { if true { @ } elif true { } }", "for ;; { if true { x = @ } elif true { }\n break }",
+		"x = 1\nx += @", "x = 1\nx -= @", "l = [1]\nl[@] = 1", "m = {}\nm[\"k\"] = [1]\nm[\"k\"][@] += 1", "l = [1]\nl[0] = @", "@", "x = @", "x = 1\n@\ny = 2",
+		"x, y = 1, @", "x, y = @, 1", "l = [1, 2]\nl[0], l[@] = 1, 2",
+	}
+	type off struct {
+		text   string
+		v1, v2 bool
+	}
+	offs := []off{{"nosuch()", true, true}, {"len()", true, false}, {"NoSuch(1, 2)", true, true}, {"pval(w = 1)", false, true}, {"pval()", false, true}, {"pval(1, 2)", false, true}, {"len(1, 2, 3)", true, false}}
+	v2fns := sem.V2Fns()
+	n, inapplicable := 0, 0
+	for ci, ctx := range contexts {
+		base := strings.Replace(ctx, "@", "1", 1)
+		okV1, okV2 := false, false
+		if err, crash := loadV1(base); err == nil && crash == nil {
+			okV1 = true
+		}
+		if err, crash := loadV2(base, v2fns); err == nil && crash == nil {
+			okV2 = true
+		}
+		if !okV1 && !okV2 {
+			inapplicable++
+			evid.Label("context-table/context-not-loadable-with-a-harmless-value")
+			continue
+		}
+		for oi, o := range offs {
+			src := strings.Replace(ctx, "@", o.text, 1)
+			at := strings.Index(ctx, "@")
+			span := [2]int{at, at + len(o.text)}
+			rp := replay{Src: src, Offender: o.text, Span: span, Expect: "rejected"}
+			if o.v1 && okV1 {
+				err, crash := loadV1(src)
+				checkRejected(t, "context-table", rp, "v1", err, crash, span)
+				n++
+			}
+			if o.v2 && okV2 {
+				rp.V2 = true
+				err, crash := loadV2(src, v2fns)
+				checkRejected(t, "context-table", rp, "v2", err, crash, span)
+				n++
+			}
+			evid.Case(fmt.Sprintf("ctxtable/%d/%d", ci, oi), true, "context-table")
+		}
+	}
+	evid.Exhaustive(fmt.Sprintf("context (%d, %d not loadable) x offender, both loaders", len(contexts), inapplicable), n)
+}
+
+// TestAliasEnvironments: whether a grok pattern that names a user alias is valid depends on the add_pattern calls in
+// scope where it stands, not on what the same pattern text meant in a script (or block) checked earlier in the process.
+func TestAliasEnvironments(t *testing.T) {
+	n := 0
+	for round, order := range [][]int{{0, 1, 2, 3, 4, 5, 6}, {1, 0, 3, 2, 5, 4, 6}, {3, 4, 0, 6, 1, 2, 5}, {6, 5, 4, 3, 2, 1, 0}} {
+		al := fmt.Sprintf("al%d", round)
+		g := "grok(_, \"%{" + al + ":n}\")"
+		scripts := []struct {
+			src   string
+			valid bool
+		}{
+			{"add_pattern(\"" + al + "\", \"\\\\d+\")\nif true { " + g + " }", true},
+			{"if true { " + g + " }", false},
+			{"add_pattern(\"" + al + "\", \"[a-z]+\")\nfor i in [1] { if true { " + g + " } }", true},
+			{"if true { add_pattern(\"" + al + "\", \"x\") }\nif true { " + g + " }", false},
+			{"x = 1\n" + g, false},
+			{"add_pattern(\"" + al + "\", \"%{INT}\")\nx = 1\n" + g, true},
+			{"for i in [1] { add_pattern(\"" + al + "\", \"y\") }\nfor i in [1] { " + g + " }", false},
+		}
+		for _, k := range order {
+			sc := scripts[k]
+			err, crash := loadV1(sc.src)
+			at := strings.Index(sc.src, g)
+			span := [2]int{at, at + len(g)}
+			rp := replay{Src: sc.src, Offender: g, Span: span, Expect: map[bool]string{true: "accepted", false: "rejected"}[sc.valid]}
+			if sc.valid {
+				if crash != nil || err != nil {
+					rk.Fail(t, "alias-env", rp, "v1 rejected a script whose grok pattern names an alias defined in scope (%v %v), after %d other scripts using the same pattern text were checked\nscript:\n%s", err, crash, n, sc.src)
+				}
+			} else {
+				checkRejected(t, "alias-env", rp, "v1", err, crash, span)
+			}
+			evid.Case(fmt.Sprintf("aliasenv/%d/%d", round, k), true, "alias-environments")
+			n++
+		}
+	}
+	evid.Exhaustive("one pattern text x 7 alias environments x 4 check orders", n)
+}
+
 func TestFixedOffenders(t *testing.T) {
 	cases := []struct {
 		src  string
